@@ -158,7 +158,9 @@ def check(case, ctx):
             path = os.path.join(td, f"{name}.v")
             with open(path, "w") as f:
                 f.write(text)
-            okf, cf = ctx.call(cg.io.from_file, path, name, blackboxes=bbs_arg, fast=True)
+            import pathlib
+
+            okf, cf = ctx.call(cg.io.from_file, pathlib.Path(path) if (h >> 12) % 2 else path, name, blackboxes=bbs_arg, fast=True)
         ctx.count("fast_via_from_file")
     else:
         okf, cf = ctx.call(cg.io.verilog_to_circuit, text, name, blackboxes=bbs_arg, fast=True)
